@@ -9,6 +9,20 @@ NOTE = ("Trusted: Coq 8.16.1 kernel + vm_compute; tools/gen_consts.py; the Rust 
 TECH = "machine-checked proof in Coq (Rocq) over a Gallina model + differential correspondence check against the Rust code"
 
 CLAIMED = {
+    "C06": {
+        "text": "Theorems (props/C06.v) over the Gallina model of TokenStore, for every history pre ++ issue :: mid ++ presentation :: post "
+                "with arbitrary pre/mid/post (any interleaving of issues and presentations from any IPv4/IPv6 addresses) and non-decreasing "
+                "times: a token is accepted from its IP up to and including 10 min after issue whatever happened in between "
+                "(c06_valid_10min), never accepted at or after 30 min (c06_dead_30min), never from another IP (c06_ip_bound), and byte "
+                "strings that are not a digest of this run are always refused (c06_unissued_refused). Invariant-based proof (secret "
+                "tracking through lazy rotations incl. the whole-second floor), unbounded, no axioms. Tie: REFRESH_INTERVAL read from "
+                "src/token.rs (theorems state 10/30 min, so drift breaks the proofs); the real TokenStore is run under the virtual clock "
+                "on boundary-biased scripts and compared with the model (accept/refuse sequence + token equality pattern); an executable "
+                "checker of the four clauses (c06_ok) is evaluated in Coq on the real accept flags; failing scripts are shrunk. The "
+                "handler clause (storing gated on the check, source IP passed) is covered by the handler model of C05.",
+        "ref": "7/C06", "axioms": "none",
+        "note_extra": "Assumptions A-SHA (SHA-1 injective on ip||secret: tokens are symbolic terms), A-RNG (fresh secrets), A-TIME.",
+    },
     "C07": {
         "text": "Refinement theorem c07_refines_spec (props/C07.v): for EVERY history of announces and lookups with non-decreasing time "
                 "stamps, every reply of the modelled AnnounceStorage equals the reply of an abstract map (info-hash,address) -> time of "
